@@ -26,6 +26,9 @@
      window exactly 4094..4097 bytes produced (by literals, or literals + a reference),
             then a reference with every displacement in produced+1 .. 4096 (before the
             start, by one or two bytes at the window edge) and the legal edge ones
+     big    declared length around and above 2^16 (third header byte non-zero): a literal
+            run and one maximal short-form reference producing 0xFFFF, 0x10000, 0x10001
+            (thorough also 0x20304) bytes
      rand   token sequences read from IOEnv.TOKENS (seeded random, written by the
             harness: lengths log-uniform over the whole range of the format,
             displacements anywhere in 1..min(produced,4096), several references per
@@ -69,13 +72,14 @@ NibbleLens(F) == { l \in (IF Quick THEN {33, 289, 529, 4368, 4369, 8465, 33041}
                    l <= F.MaxLen }
 NibbleRuns == IF Quick THEN {1, 17} ELSE {1, 3, 17, 300}
 WindowEdge == {4094, 4095, 4096, 4097}
+BigTotals == IF Quick THEN {65535, 65536, 65537} ELSE {65535, 65536, 65537, 131844}
 
 \* seeded random token sequences written by the harness (mvh_lz tokgen): [fmt, ts]
 Toks == IF "TOKENS" \in DOMAIN IOEnv THEN ndJsonDeserialize(IOEnv.TOKENS) ELSE <<>>
 
 \* GEN_FAM selects one family (the check may run the families as separate TLC processes)
 Fams == IF "GEN_FAM" \in DOMAIN IOEnv THEN {IOEnv.GEN_FAM}
-        ELSE {"small", "group", "edge", "nibble", "window", "fixed"} \cup (IF Len(Toks) > 0 THEN {"rand"} ELSE {})
+        ELSE {"small", "group", "edge", "nibble", "window", "big", "fixed"} \cup (IF Len(Toks) > 0 THEN {"rand"} ELSE {})
 
 Init == /\ fam \in Fams
         /\ IF fam = "rand"
@@ -118,6 +122,8 @@ ExtendMore ==
      /\ \E t \in {Lit(B), Ref(3, 1), Ref(3, far), Ref(4, far \div 2 + 1)} : ts' = Append(ts, t)
   \/ /\ fam = "nibble" /\ k = 3 /\ ts[3].k = "lit"
      /\ ts' = Append(ts, Ref(4, far))
+  \/ /\ fam = "big" /\ k = 0
+     /\ \E n \in BigTotals : ts' = <<Run(n - F.LA, 77), Ref(F.LA, 1)>>
   \/ /\ fam = "window" /\ k = 0
      /\ \E n \in WindowEdge : ts' = <<Run(n, 11)>> \/ ts' = <<Run(n - 18, 11), Ref(18, 1)>>
 
@@ -160,7 +166,7 @@ EmitSeq ==
       k == Len(ts)
       small == fam \in {"small", "group"}
       full  == k <= 4        \* sequences of 5 tokens (thorough) get the cheaper variants only
-      lean  == fam \in {"nibble", "window"}     \* exact / wrapped (and the window-edge references) only
+      lean  == fam \in {"nibble", "window", "big"}     \* exact / wrapped (and the window-edge references) only
   IN
   \* token sequences read from a file must be well-formed for the format (else: harness defect)
   /\ Assert(RefsOK(ts, 0) /\ \A i \in 1..k : InFormat(F, ts[i]), "generator: ill-formed token sequence")
